@@ -5,7 +5,7 @@
 //! futures the schedule releases with the scripted outcome. The requested wait durations are recorded instead of
 //! slept (virtual clock).
 //!
-//! case: (b CAP (sp I…) (ops OP…))   — see lean/EmitModel/Driver/Batcher.lean for the op grammar and output format.
+//! case: (b CAP (sp I…) (win W…) (ops OP…))   — see lean/EmitModel/Driver/Batcher.lean for the op grammar and output format.
 //! Watcher ids ≥ 5000 register a callback that panics after recording that it ran.
 //!
 //! Implementation-side oracles (computed from the observed I/O alone, no model):
@@ -22,9 +22,11 @@
 
 use emit_batcher::{BatchError, ChannelMetrics, Receiver, Sender};
 use hcommon::{Rng, Sexp, Stream, Tier};
-use std::collections::BTreeSet;
+use std::cell::RefCell;
+use std::collections::{BTreeMap, BTreeSet};
 use std::future::Future;
 use std::pin::Pin;
+use std::rc::Rc;
 use std::sync::{Arc, Mutex};
 use std::task::{Context, Poll, Waker};
 use std::time::Duration;
@@ -52,15 +54,15 @@ struct Proj {
     oracles: &'static [&'static str],
 }
 
-const FULL: Proj = Proj { events: "!?~cwdP", tags: true, queue: true, counters: true, oracles: &["c0", "receiver"] };
+const FULL: Proj = Proj { events: "!?~cwdP+", tags: true, queue: true, counters: true, oracles: &["c0", "receiver"] };
 /// C06: every on_batch argument, the send / try_send results, queue length + truncation counter, termination
-const P06: Proj = Proj { events: "cdP", tags: true, queue: true, counters: false, oracles: &["c06"] };
+const P06: Proj = Proj { events: "cdP+", tags: true, queue: true, counters: false, oracles: &["c06"] };
 /// C07: when each flush callback ran (or was dropped) relative to the on_batch calls and their outcomes
 const P07: Proj = Proj { events: "!~cP", tags: false, queue: false, counters: false, oracles: &["c07"] };
 /// C08: calls, wait durations, every callback invocation, termination, the batch counters
 const P08: Proj = Proj { events: "!?~cwdP", tags: false, queue: false, counters: true, oracles: &["c08", "receiver"] };
 /// C09: the queue length and truncation counter after every operation, the try_send results
-const P09: Proj = Proj { events: "", tags: true, queue: true, counters: false, oracles: &["c09"] };
+const P09: Proj = Proj { events: "+", tags: true, queue: true, counters: false, oracles: &["c09"] };
 
 fn project(full: &str, p: &Proj) -> String {
     let (trace, fails) = match full.split_once('\t') {
@@ -150,6 +152,12 @@ enum Op {
     Waited,
 }
 
+impl Op {
+    fn sender_side(&self) -> bool {
+        matches!(self, Op::Send(_) | Op::Try(_) | Op::Flush(_) | Op::Empty(_) | Op::DropSender)
+    }
+}
+
 fn parse_op(s: &Sexp) -> Option<Op> {
     let (tag, a) = s.as_tagged()?;
     Some(match (tag, a.len()) {
@@ -169,10 +177,27 @@ fn parse_op(s: &Sexp) -> Option<Op> {
     })
 }
 
-fn parse_case(line: &str) -> Option<(usize, Vec<usize>, Vec<Op>)> {
+/// Sender operations performed INSIDE the receiver's lock-free windows: `calls[i]` runs at the start of the i-th
+/// `on_batch` invocation (i.e. between the receiver's unlock — or the end of the retry wait — and the call),
+/// `waits[j]` at the start of the j-th `wait` invocation (between the unlock / the outcome and the wait).
+/// This is how sender steps land between the swap-out of a batch and its hand-over without any hook or thread.
+#[derive(Default, Clone)]
+struct Windows {
+    calls: BTreeMap<usize, Vec<Op>>,
+    waits: BTreeMap<usize, Vec<Op>>,
+}
+
+struct Case {
+    cap: usize,
+    sp: Vec<usize>,
+    win: Windows,
+    ops: Vec<Op>,
+}
+
+fn parse_case(line: &str) -> Option<Case> {
     let s = Sexp::parse(line)?;
     let (tag, a) = s.as_tagged()?;
-    if tag != "b" || a.len() != 3 {
+    if tag != "b" || a.len() != 4 {
         return None;
     }
     let cap = a[0].as_usize()?;
@@ -184,18 +209,44 @@ fn parse_case(line: &str) -> Option<(usize, Vec<usize>, Vec<Op>)> {
         return None;
     }
     let sp = sp.iter().map(|x| x.as_usize()).collect::<Option<Vec<_>>>()?;
-    let (t, ops) = a[2].as_tagged()?;
+    let (t, wins) = a[2].as_tagged()?;
+    if t != "win" {
+        return None;
+    }
+    let mut win = Windows::default();
+    for w in wins {
+        let (kind, rest) = w.as_tagged()?;
+        let (idx, ops) = rest.split_first()?;
+        let idx = idx.as_usize()?;
+        let ops = ops.iter().map(parse_op).collect::<Option<Vec<_>>>()?;
+        if !ops.iter().all(|o| o.sender_side()) {
+            return None;
+        }
+        let map = match kind {
+            "c" => &mut win.calls,
+            "w" => &mut win.waits,
+            _ => return None,
+        };
+        if map.insert(idx, ops).is_some() {
+            return None;
+        }
+    }
+    let (t, ops) = a[3].as_tagged()?;
     if t != "ops" {
         return None;
     }
     let ops = ops.iter().map(parse_op).collect::<Option<Vec<_>>>()?;
-    Some((cap, sp, ops))
+    Some(Case { cap, sp, win, ops })
 }
 
 // ------------------------------------------------------------------ gates and log
 
+/// One ordered log of everything that happens: what emit does (callbacks, calls, waits) and what the harness
+/// does to it (sender operations and their results), so that the oracle sees the true order even when sender
+/// operations run inside a window of the receiver.
 #[derive(Clone, Debug, PartialEq)]
 enum Ev {
+    // printed
     Fired(u64),
     FiredEmpty(u64),
     Dropped(u64),
@@ -203,8 +254,18 @@ enum Ev {
     Wait(u128),
     Done,
     Panic,
-    /// the on_batch closure panicked (scripted); not printed, only tells the oracle the attempt is over
+    /// result tag of a sender op executed inside a window; printed as `+<tag>` after the events it caused
+    Win(String),
+    // not printed: inputs of the oracle
+    /// the on_batch closure panicked (scripted): the attempt is over
     SyncPanicked,
+    Sent { x: u64, q0: usize, t0: usize, q1: usize, t1: usize },
+    TryOk(u64),
+    TryFull { x: u64, y: u64 },
+    RegFlush(u64),
+    RegEmpty(u64),
+    Outcome(Option<Vec<u64>>),
+    ReceiverDropped,
 }
 
 enum Scripted {
@@ -218,6 +279,7 @@ enum Scripted {
 struct Sh {
     log: Vec<Ev>,
     ncalls: usize,
+    nwaits: usize,
     sp: Vec<usize>,
     batch_outstanding: bool,
     batch_release: Option<Scripted>,
@@ -226,6 +288,10 @@ struct Sh {
 }
 
 type Shared = Arc<Mutex<Sh>>;
+
+fn log(sh: &Shared, e: Ev) {
+    sh.lock().unwrap().log.push(e);
+}
 
 #[derive(Debug)]
 struct E;
@@ -283,7 +349,7 @@ impl Cb {
     fn run(mut self) {
         self.ran = true;
         let ev = if self.flush { Ev::Fired(self.id) } else { Ev::FiredEmpty(self.id) };
-        self.sh.lock().unwrap().log.push(ev);
+        log(&self.sh, ev);
         if self.id >= 5000 {
             panic!("scripted panic inside a callback");
         }
@@ -291,7 +357,7 @@ impl Cb {
 }
 impl Drop for Cb {
     fn drop(&mut self) {
-        if !self.ran {
+        if !self.ran && self.flush {
             if let Ok(mut sh) = self.sh.lock() {
                 sh.log.push(Ev::Dropped(self.id));
             }
@@ -351,6 +417,56 @@ impl Oracle {
     }
     fn event(&mut self, e: &Ev) {
         match e {
+            Ev::Sent { x, q0, t0, q1, t1 } => {
+                let truncated = t1 != t0;
+                if !truncated && *q0 >= self.cap {
+                    self.fail("c09-newest");
+                }
+                if truncated {
+                    if *t1 != t0 + 1 || *q0 < self.cap {
+                        self.fail("c09-newest");
+                    }
+                    // the real queue is the tail of what the oracle still counts as queued (a batch that was
+                    // swapped out but not yet handed over is a prefix of it): exactly those q0 items are cleared
+                    let keep = self.queued.len().saturating_sub(*q0);
+                    let lost = self.queued.split_off(keep);
+                    self.truncated.extend(lost);
+                }
+                let base = if truncated { 0 } else { *q0 };
+                if *q1 == base + 1 {
+                    self.queued.push(*x);
+                    if truncated && *q1 != 1 {
+                        self.fail("c09-newest");
+                    }
+                } else if *q1 != base {
+                    self.fail("c09-newest");
+                }
+            }
+            Ev::TryOk(x) => self.queued.push(*x),
+            Ev::TryFull { x, y } => {
+                if x != y {
+                    self.fail("c09-newest");
+                }
+            }
+            Ev::RegFlush(w) => {
+                // obligation (I/O only): everything accepted so far that is not yet finalised or truncated
+                let mut obs = self.queued.clone();
+                obs.extend(self.inflight.iter().copied());
+                self.obligations.push((*w, obs));
+                self.registered.push(*w);
+            }
+            Ev::RegEmpty(w) => self.registered.push(*w),
+            Ev::Outcome(rem) => {
+                self.awaiting_outcome = false;
+                match rem {
+                    Some(rem) if !rem.is_empty() && self.attempts < 1 + RETRY_MAX => {
+                        self.expect_retry = Some(rem.clone());
+                    }
+                    _ => self.expect_retry = None,
+                }
+            }
+            Ev::ReceiverDropped => self.receiver_gone = true,
+            Ev::Win(_) => {}
             Ev::Call(b) => {
                 self.awaiting_outcome = true;
                 // a retry call must carry exactly the returned remainder; a call that is exactly the queue is a
@@ -369,10 +485,13 @@ impl Oracle {
                 } else {
                     // a new batch: the previous one (if any) is through its last attempt
                     self.conclude();
-                    if b != &self.queued {
+                    // everything accepted before the swap-out, in order; what was accepted inside the window
+                    // between the swap-out and this call stays queued (a prefix is taken, the rest remains)
+                    if b.is_empty() || !self.queued.starts_with(b) {
                         self.fail("c06-partition");
                     }
-                    self.queued.clear();
+                    let rest = self.queued.split_off(b.len().min(self.queued.len()));
+                    self.queued = rest;
                     self.inflight = b.clone();
                     self.attempts = 1;
                 }
@@ -435,30 +554,24 @@ impl Oracle {
             }
         }
     }
-    /// the outcome released to the processing gate (harness input, not an observation of emit)
-    fn outcome(&mut self, o: &Op) {
-        self.awaiting_outcome = false;
-        match o {
-            Op::Retry(rem) if !rem.is_empty() && self.attempts < 1 + RETRY_MAX => {
-                self.expect_retry = Some(rem.clone());
-            }
-            _ => {
-                self.expect_retry = None;
-            }
-        }
-    }
 }
 
 // ------------------------------------------------------------------ the interpreter
 
+/// What the schedule interpreter and the closures passed to `exec` share (single thread; the closures run inside
+/// `poll`, during which the interpreter holds no borrow).
+struct Core {
+    sender: Option<Sender<Vec<u64>>>,
+    metrics: ChannelMetrics<Vec<u64>>,
+}
+
 struct World {
     cap: usize,
-    sender: Option<Sender<Vec<u64>>>,
+    core: Rc<RefCell<Core>>,
     fut: Option<Pin<Box<dyn Future<Output = ()>>>>,
     finished: bool,
     torn_down: bool,
     started: bool,
-    metrics: ChannelMetrics<Vec<u64>>,
     sh: Shared,
     or: Oracle,
 }
@@ -467,17 +580,87 @@ fn items(xs: &[u64]) -> String {
     xs.iter().map(|x| x.to_string()).collect::<Vec<_>>().join(".")
 }
 
+/// Execute one sender-side op on the real `Sender`; returns its tag (`x` = no Sender). Everything the oracle needs
+/// goes to the log, in order.
+fn sender_op(core: &Rc<RefCell<Core>>, sh: &Shared, op: &Op) -> String {
+    if let Op::DropSender = op {
+        let s = core.borrow_mut().sender.take();
+        return match s {
+            None => "x".into(),
+            Some(s) => {
+                drop(s);
+                "ds".into()
+            }
+        };
+    }
+    let core = core.borrow();
+    let Some(s) = core.sender.as_ref() else {
+        return "x".into();
+    };
+    match op {
+        Op::Send(x) => {
+            let before = sample(&core.metrics);
+            let (q0, t0) = (before("queue_length"), before("queue_full_truncated"));
+            s.send(*x);
+            let after = sample(&core.metrics);
+            let (q1, t1) = (after("queue_length"), after("queue_full_truncated"));
+            log(sh, Ev::Sent { x: *x, q0, t0, q1, t1 });
+            "s".into()
+        }
+        Op::Try(x) => match s.try_send(*x) {
+            Ok(()) => {
+                log(sh, Ev::TryOk(*x));
+                "t=ok".into()
+            }
+            Err(e) => match e.into_retryable() {
+                Some(y) => {
+                    log(sh, Ev::TryFull { x: *x, y });
+                    format!("t=full({})", y)
+                }
+                None => "t=closed".into(),
+            },
+        },
+        Op::Flush(w) => {
+            log(sh, Ev::RegFlush(*w));
+            let cb = Cb { id: *w, flush: true, sh: sh.clone(), ran: false };
+            let _ = hcommon::catch(|| s.when_flushed(move || cb.run()));
+            "f".into()
+        }
+        Op::Empty(w) => {
+            log(sh, Ev::RegEmpty(*w));
+            let cb = Cb { id: *w, flush: false, sh: sh.clone(), ran: false };
+            let _ = hcommon::catch(|| s.when_empty(move || cb.run()));
+            "e".into()
+        }
+        _ => "?".into(),
+    }
+}
+
+fn run_window(core: &Rc<RefCell<Core>>, sh: &Shared, ops: Option<&Vec<Op>>) {
+    if let Some(ops) = ops {
+        for op in ops {
+            let tag = sender_op(core, sh, op);
+            log(sh, Ev::Win(tag));
+        }
+    }
+}
+
 impl World {
-    fn new(cap: usize, sp: Vec<usize>) -> World {
+    fn new(cap: usize, sp: Vec<usize>, win: Windows) -> World {
         let (sender, receiver): (Sender<Vec<u64>>, Receiver<Vec<u64>>) = emit_batcher::bounded(cap);
         let metrics = sender.metric_source();
+        let core = Rc::new(RefCell::new(Core { sender: Some(sender), metrics }));
         let sh: Shared = Arc::new(Mutex::new(Sh { sp, ..Default::default() }));
+        let win = Rc::new(win);
         let fut = {
-            let sh_w = sh.clone();
-            let sh_b = sh.clone();
+            let (sh_w, core_w, win_w) = (sh.clone(), core.clone(), win.clone());
+            let (sh_b, core_b, win_b) = (sh.clone(), core.clone(), win.clone());
             receiver.exec(
                 move |d: Duration| {
+                    let idx = sh_w.lock().unwrap().nwaits;
+                    run_window(&core_w, &sh_w, win_w.waits.get(&idx));
                     let mut s = sh_w.lock().unwrap();
+                    s.nwaits += 1;
                     s.log.push(Ev::Wait(d.as_nanos()));
                     s.wait_outstanding = true;
                     s.wait_release = false;
@@ -485,8 +668,9 @@ impl World {
                     WaitGate(sh_w.clone())
                 },
                 move |batch: Vec<u64>| {
+                    let idx = sh_b.lock().unwrap().ncalls;
+                    run_window(&core_b, &sh_b, win_b.calls.get(&idx));
                     let mut s = sh_b.lock().unwrap();
-                    let idx = s.ncalls;
                     s.ncalls += 1;
                     s.log.push(Ev::Call(batch));
                     if s.sp.contains(&idx) {
@@ -503,12 +687,11 @@ impl World {
         };
         World {
             cap,
-            sender: Some(sender),
+            core,
             fut: Some(Box::pin(fut)),
             finished: false,
             torn_down: false,
             started: false,
-            metrics,
             sh,
             or: Oracle { cap, ..Default::default() },
         }
@@ -522,111 +705,31 @@ impl World {
                 Some(Poll::Ready(())) => {
                     self.fut = None;
                     self.finished = true;
-                    self.sh.lock().unwrap().log.push(Ev::Done);
+                    log(&self.sh, Ev::Done);
                 }
                 Some(Poll::Pending) => {}
                 None => {
                     self.fut = None;
                     self.finished = true;
-                    self.sh.lock().unwrap().log.push(Ev::Panic);
+                    log(&self.sh, Ev::Panic);
                 }
             }
         }
     }
 
-    fn cb(&self, id: u64, flush: bool) -> impl FnOnce() + Send + 'static {
-        let cb = Cb { id, flush, sh: self.sh.clone(), ran: false };
-        move || cb.run()
-    }
-
-    /// returns the tag of the op (`x` = not enabled)
+    /// returns the output token of the op
     fn op(&mut self, op: &Op) -> String {
-        let before = sample(&self.metrics);
-        let (q0, t0) = (before("queue_length"), before("queue_full_truncated"));
         let tag: String = match op {
-            Op::Send(x) => match &self.sender {
-                None => "x".into(),
-                Some(s) => {
-                    s.send(*x);
-                    let after = sample(&self.metrics);
-                    let (q1, t1) = (after("queue_length"), after("queue_full_truncated"));
-                    let truncated = t1 != t0;
-                    if !truncated && q0 >= self.cap {
-                        self.or.fail("c09-newest");
-                    }
-                    if truncated {
-                        if t1 != t0 + 1 || q0 < self.cap {
-                            self.or.fail("c09-newest");
-                        }
-                        let lost = std::mem::take(&mut self.or.queued);
-                        self.or.truncated.extend(lost);
-                    }
-                    let base = if truncated { 0 } else { q0 };
-                    if q1 == base + 1 {
-                        self.or.queued.push(*x);
-                        if truncated && q1 != 1 {
-                            self.or.fail("c09-newest");
-                        }
-                    } else if q1 != base {
-                        self.or.fail("c09-newest");
-                    }
-                    "s".into()
-                }
-            },
-            Op::Try(x) => match &self.sender {
-                None => "x".into(),
-                Some(s) => match s.try_send(*x) {
-                    Ok(()) => {
-                        self.or.queued.push(*x);
-                        "t=ok".into()
-                    }
-                    Err(e) => match e.into_retryable() {
-                        Some(y) => {
-                            if y != *x {
-                                self.or.fail("c09-newest");
-                            }
-                            format!("t=full({})", y)
-                        }
-                        None => "t=closed".into(),
-                    },
-                },
-            },
-            Op::Flush(w) => match &self.sender {
-                None => "x".into(),
-                Some(s) => {
-                    // obligation (I/O only): everything accepted so far that is not yet finalised or truncated
-                    let mut obs = self.or.queued.clone();
-                    obs.extend(self.or.inflight.iter().copied());
-                    self.or.obligations.push((*w, obs));
-                    self.or.registered.push(*w);
-                    let cb = self.cb(*w, true);
-                    let _ = hcommon::catch(|| s.when_flushed(cb));
-                    "f".into()
-                }
-            },
-            Op::Empty(w) => match &self.sender {
-                None => "x".into(),
-                Some(s) => {
-                    self.or.registered.push(*w);
-                    let cb = self.cb(*w, false);
-                    let _ = hcommon::catch(|| s.when_empty(cb));
-                    "e".into()
-                }
-            },
-            Op::DropSender => match self.sender.take() {
-                None => "x".into(),
-                Some(s) => {
-                    drop(s);
-                    "ds".into()
-                }
-            },
+            Op::Send(_) | Op::Try(_) | Op::Flush(_) | Op::Empty(_) | Op::DropSender => {
+                sender_op(&self.core, &self.sh, op)
+            }
             Op::DropReceiver => match self.fut.take() {
                 None => "x".into(),
                 Some(f) => {
                     drop(f);
                     self.torn_down = true;
-                    self.or.receiver_gone = true;
                     let mut sh = self.sh.lock().unwrap();
+                    sh.log.push(Ev::ReceiverDropped);
                     sh.batch_outstanding = false;
                     sh.wait_outstanding = false;
                     "dr".into()
@@ -645,13 +748,19 @@ impl World {
                 if !outstanding {
                     "x".into()
                 } else {
-                    self.sh.lock().unwrap().batch_release = Some(match op {
-                        Op::Ok => Scripted::Ok,
-                        Op::Fail => Scripted::Fail,
-                        Op::Retry(r) => Scripted::Retry(r.clone()),
-                        _ => Scripted::PanicAsync,
-                    });
-                    self.or.outcome(op);
+                    {
+                        let mut sh = self.sh.lock().unwrap();
+                        sh.batch_release = Some(match op {
+                            Op::Ok => Scripted::Ok,
+                            Op::Fail => Scripted::Fail,
+                            Op::Retry(r) => Scripted::Retry(r.clone()),
+                            _ => Scripted::PanicAsync,
+                        });
+                        sh.log.push(Ev::Outcome(match op {
+                            Op::Retry(r) => Some(r.clone()),
+                            _ => None,
+                        }));
+                    }
                     self.poll();
                     "r".into()
                 }
@@ -672,24 +781,23 @@ impl World {
         let mut out = tag;
         for e in &evs {
             self.or.event(e);
-            if *e == Ev::SyncPanicked {
-                continue;
-            }
+            let txt = match e {
+                Ev::Fired(w) => format!("!{}", w),
+                Ev::FiredEmpty(w) => format!("?{}", w),
+                Ev::Dropped(w) => format!("~{}", w),
+                Ev::Call(b) => format!("c({})", items(b)),
+                Ev::Wait(d) => format!("w{}", d),
+                Ev::Done => "done".into(),
+                Ev::Panic => "PANIC".into(),
+                Ev::Win(t) => format!("+{}", t),
+                _ => continue,
+            };
             out.push(',');
-            match e {
-                Ev::Fired(w) => out.push_str(&format!("!{}", w)),
-                Ev::FiredEmpty(w) => out.push_str(&format!("?{}", w)),
-                Ev::Dropped(w) => out.push_str(&format!("~{}", w)),
-                Ev::Call(b) => out.push_str(&format!("c({})", items(b))),
-                Ev::Wait(d) => out.push_str(&format!("w{}", d)),
-                Ev::Done => out.push_str("done"),
-                Ev::Panic => out.push_str("PANIC"),
-                Ev::SyncPanicked => {}
-            }
+            out.push_str(&txt);
         }
-        let after = sample(&self.metrics);
+        let after = sample(&self.core.borrow().metrics);
         let (q, t) = (after("queue_length"), after("queue_full_truncated"));
-        if self.cap >= 1 && q > self.cap {
+        if q > self.cap {
             self.or.fail("c09-capacity");
         }
         out.push_str(&format!("|{}/{}", q, t));
@@ -725,7 +833,7 @@ impl World {
                 self.or.fail("c08-drain");
             }
         }
-        let m = sample(&self.metrics);
+        let m = sample(&self.core.borrow().metrics);
         format!(
             "F:{},proc={},fail={},panic={},retry={}",
             st,
@@ -738,12 +846,12 @@ impl World {
 }
 
 fn run_batcher(line: &str) -> String {
-    let Some((cap, sp, ops)) = parse_case(line) else {
+    let Some(c) = parse_case(line) else {
         return "bad-case".into();
     };
-    let mut w = World::new(cap, sp);
+    let mut w = World::new(c.cap, c.sp, c.win);
     let mut toks = Vec::new();
-    for op in &ops {
+    for op in &c.ops {
         toks.push(w.op(op));
     }
     toks.push(w.finish());
@@ -804,7 +912,46 @@ fn gen_one(rng: &mut Rng, tier: Tier) -> String {
             sp.push(i);
         }
     }
-    let mut world = World::new(cap, sp.clone());
+    // sender operations inside the receiver's lock-free windows (half of the schedules)
+    let mut win = Windows::default();
+    if rng.chance(1, 2) {
+        let mut next_win_item = 2000u64;
+        let mut next_win_w = 3000u64;
+        let mut gen_ops = |rng: &mut Rng| -> Vec<Op> {
+            (0..rng.range(1, 3))
+                .map(|_| match rng.below(20) {
+                    0..=9 => {
+                        next_win_item += 1;
+                        Op::Send(next_win_item)
+                    }
+                    10..=12 => {
+                        next_win_item += 1;
+                        Op::Try(next_win_item)
+                    }
+                    13..=15 => {
+                        next_win_w += 1;
+                        Op::Flush(next_win_w)
+                    }
+                    16..=18 => {
+                        next_win_w += 1;
+                        Op::Empty(next_win_w)
+                    }
+                    _ => Op::DropSender,
+                })
+                .collect()
+        };
+        for i in 0..16 {
+            if rng.chance(1, 4) {
+                win.calls.insert(i, gen_ops(rng));
+            }
+        }
+        for j in 0..24 {
+            if rng.chance(1, 8) {
+                win.waits.insert(j, gen_ops(rng));
+            }
+        }
+    }
+    let mut world = World::new(cap, sp.clone(), win.clone());
     let mut next_item = 1u64;
     let mut next_w = 100u64;
     let mut ops: Vec<Op> = Vec::new();
@@ -912,6 +1059,19 @@ fn gen_one(rng: &mut Rng, tier: Tier) -> String {
         vec![
             Sexp::num(cap),
             Sexp::tagged("sp", sp.iter().map(|x| Sexp::num(*x)).collect()),
+            Sexp::tagged(
+                "win",
+                win.calls
+                    .iter()
+                    .map(|(i, o)| ("c", i, o))
+                    .chain(win.waits.iter().map(|(i, o)| ("w", i, o)))
+                    .map(|(k, i, o)| {
+                        let mut v = vec![Sexp::num(*i)];
+                        v.extend(o.iter().map(show_op));
+                        Sexp::tagged(k, v)
+                    })
+                    .collect(),
+            ),
             Sexp::tagged("ops", ops.iter().map(show_op).collect()),
         ],
     )
